@@ -62,6 +62,11 @@ pub fn malform(r: &mut Rng, e: &mut EchoReq) -> Option<String> {
             0 => {
                 // path
                 let (idx, bad): (usize, &str) = *r.pick(&[
+                    // escapes that do not decode to UTF-8 in a string segment
+                    (1, "%ff"),
+                    (1, "a%c3%28"),
+                    (1, "al%80ice"),
+                    (1, "%ed%a0%80"),
                     (2, "abc"),
                     (2, "9223372036854775808"),
                     (2, "-9223372036854775809"),
@@ -223,6 +228,18 @@ pub fn malform(r: &mut Rng, e: &mut EchoReq) -> Option<String> {
             e.body = Some(pairs.iter().map(|(k, v)| format!("{k}={v}")).collect::<Vec<_>>().join("&").into_bytes());
             Some(why.into())
         }
+        "echo_wild" | "echo_raw" | "echo_stream" if e.path_segs.len() >= 1 && e.op != "echo_stream" => {
+            // a string-typed path variable (or a component of a wildcard)
+            // whose escapes do not decode to UTF-8
+            let bad = *r.pick(&["%ff", "a%c3%28", "al%80ice", "%ed%a0%80", "%fe%fe%ff%ff"]);
+            if e.op == "echo_raw" {
+                e.path_segs[1] = bad.to_string();
+            } else {
+                let at = r.usize_in(1, e.path_segs.len());
+                e.path_segs.insert(at, bad.to_string());
+            }
+            Some(format!("undecodable path segment {bad}"))
+        }
         "echo_narrow" => {
             let (idx, bad): (usize, &str) = *r.pick(&[
                 (1, "256"),
@@ -347,7 +364,9 @@ pub fn gen_random(seed: u64, idx: u64) -> Plan {
         for j in 0..nreq {
             let steps = r.range(0, 1) as u32;
             let step_ms = *r.pick(&[0u64, 1, 10]);
-            let mut e = match r.below(9) {
+            let mut e = match r.below(11) {
+                9 => gen_wild(&mut r, nonce, steps, step_ms),
+                10 => gen_raw(&mut r, nonce, steps, step_ms, false),
                 8 => gen_page(&mut r, nonce, steps, step_ms),
                 0 | 1 | 2 | 3 => gen_typed(&mut r, nonce, steps, step_ms),
                 4 | 5 => gen_form(&mut r, nonce, steps, step_ms),
